@@ -29,6 +29,7 @@ def fix(m):
     n = cases(p)
     cells[4] = ' ' + (re.sub(r'^\d+', n, old) if re.match(r'^\d+', old) else old) + ' '
     return '|'.join(cells)
-s = re.sub(r"^\| (C\d\d) \|[^\n]*\|[^\n]*\|[^\n]*\|[^\n]*\|$", fix, s, flags=re.M)
+a = s.index("### 11.1 What exists"); b = s.index("### 11.2", a)   # only the table of 11.1
+s = s[:a] + re.sub(r"^\| (C\d\d) \|[^\n]*\|[^\n]*\|[^\n]*\|[^\n]*\|$", fix, s[a:b], flags=re.M) + s[b:]
 open(R + '/DESIGN.md', 'w').write(s)
 print(len(rows), 'seeded rows written')
